@@ -145,6 +145,32 @@ def run(ctx, res):
             rid = g.rid()
             term = b'\r\n' if (i % 2 == 0) else b'\n'
             cases.append((meth, q, rid, term))
+    # every text slot of every request kind set, one at a time, to each type-marker letter and protocol word
+    def leaves(x, path=()):
+        if isinstance(x, str) and path and path != (0,):
+            yield path
+        elif isinstance(x, (tuple, list)):
+            for i, y in enumerate(x):
+                yield from leaves(y, path + (i,))
+
+    def put(x, path, v):
+        if not path:
+            return v
+        l = list(x)
+        l[path[0]] = put(x[path[0]], path[1:], v)
+        return tuple(l) if isinstance(x, tuple) else l
+    for meth in wire.REQUEST_METHODS:
+        base = g.request(meth)
+        for path in list(leaves(base)):
+            if isinstance(base[0], str) and path == (0,):
+                continue
+            for v in ('S', 'I', 'M', 'P', 'B', 'KEEPALIVE', 'CLOSE'):
+                try:
+                    q2 = put(base, path, v)
+                    wire.encode_args(q2)
+                except Exception:
+                    continue           # the slot is not a text slot (mode / platform name)
+                cases.append((meth, q2, g.rid(), b'\r\n'))
     calls = []
     for meth, q, rid, term in cases:
         calls.append([sym('encode_line'), rid, sym(meth), wire.sx_wire(q), term])
